@@ -232,3 +232,33 @@ pub fn c02_constants() {
     assert!(HRS_PER_DAY == 24. && MIN_SEC_PER_HR_MIN == 60. && TWO_PI_DEG == 360., "C01 day, hour and circle constants");
     assert!(DEF_ROUND_SEC == 30. && AGGRESSIVE_ROUND_SEC == 1., "C11 rounding thresholds are 30 s and 1 s");
 }
+
+// =====================================================================================
+// C05 — get_hours assembles exactly the six hours, Dhuhr always Ok (stage results arbitrary)
+pub fn sdm_any(_t: &TopAstroDay, _w: Weather) -> (Result<f64, ()>, f64, Result<f64, ()>) {
+    let r = |ok: bool| if ok { Ok(any_f64_in(-48., 72.)) } else { Err(()) };
+    (r(kani::any()), any_f64_in(-48., 72.), r(kani::any()))
+}
+pub fn fi_any(_p: &Params, _t: &TopAstroDay, _d: f64) -> (Result<f64, ()>, Result<f64, ()>) {
+    let r = |ok: bool| if ok { Ok(any_f64_in(-48., 72.)) } else { Err(()) };
+    (r(kani::any()), r(kani::any()))
+}
+pub fn asr_any(_p: &Params, _t: &TopAstroDay, _d: f64) -> Result<f64, ()> {
+    if kani::any() { Ok(any_f64_in(-48., 72.)) } else { Err(()) }
+}
+#[kani::proof]
+#[kani::unwind(9)]
+#[kani::stub(get_shur_dhuhr_magh, sdm_any)]
+#[kani::stub(get_fajr_isha, fi_any)]
+#[kani::stub(get_asr, asr_any)]
+pub fn c05_get_hours_keys() {
+    let p = Params::new(crate::prayer_times::params::Method::Mwl);
+    let t = crate::verif_kani::any_tad(fixed_jd(), any_coords());
+    crate::vcover!();
+    let h = get_hours(&p, &t, Weather::default());
+    assert!(h.len() == 6 && h.get(&Prayer::Imsaak).is_none(), "C05 get_hours yields exactly the six hours");
+    assert!(matches!(h[&Prayer::Dhuhr], Ok(_)), "C01 Dhuhr is always reported");
+    for k in [Prayer::Fajr, Prayer::Shurooq, Prayer::Asr, Prayer::Maghrib, Prayer::Isha] {
+        assert!(h.get(&k).is_some(), "C05 every hour key is present");
+    }
+}
